@@ -9,15 +9,17 @@ ASSUMPTIONS = [
     "P18: TokenParser::{consume_token, apply_token, check_stop, compute_mask_inner, validate_token, validate_tokens_raw, rollback, stop, check_initialized, is_accepting, ...} cut verbatim from /repo's current tokenparser.rs and re-hosted in a mock TokenParser (same field names; real StopReason, ParserError, SimpleVob); stub contract as for C12 (parser = byte stack whose accepting / can_advance / error / accepts-token answers are arbitrary functions of the depth)",
     "decided: (1) once stopped for ANY reason, consume_token and compute_mask fail, validate_token answers false, validate_tokens_raw answers 0, nothing reaches the parser and no list changes; (2) check_stop() stops exactly when the state is accepting and (cannot advance or end-of-sequence was committed), with EndOfSentence / NoExtension accordingly, and otherwise changes nothing; (3) end-of-sequence in a non-accepting state is either given to the parser as bytes or fails the engine — never dropped; (4) the mask has the end-of-sequence bit whenever the state is accepting, every other bit is the walk's, an empty mask is never returned (NoExtensionBias stop instead), a parser error fails the engine; (5) a token id outside the vocabulary fails the engine for good (InternalError; consume, mask, rollback all refuse afterwards); (6) the token budget refuses the call that would exceed it with MaxTokensTotal before anything is applied",
     "valid_utf8_len (stop controller): never ends inside a multi-byte character whose remaining bytes are absent; withholds exactly an incomplete tail; returns complete text whole (buffers of <= 6 bytes, arbitrary content)",
-    "outside the claim: that the text so far IS complete when the parser says accepting (Earley run time); Matcher's panic capture (catch_unwind cannot be modelled); Constraint's step protocol; the stop controller's regex search (derivre automaton behind a mutex)",
+    "P18m: Matcher::{with_inner, consume_tokens, consume_token, rollback, reset, compute_mask, compute_mask_or_eos, is_accepting, is_stopped, stop_reason, compute_ff_tokens, consume_ff_tokens, compute_ff_bytes, try_consume_tokens, validate_tokens, is_error} cut verbatim from matcher.rs onto local copies of the Matcher type definitions with a stub TokenParser (call log, symbolic answers); panic_utils::catch_unwind is a plain call. Decided: a failing call leaves the Matcher permanently failed (is_error, is_stopped, InternalError), every later call fails and never reaches the engine, fast-forward queries answer nothing; consume_tokens commits in order with one stop check at the end and treats a backtrack request as an error; after a regular stop compute_mask_or_eos yields exactly the end-of-sequence set without asking the engine, compute_mask is an error, rollback revives the engine",
+    "P18c: Constraint::{compute_mask, compute_mask_inner, commit_token, commit_token_inner, catch_unwind, res_commit_result, save_progress_and_result, save_temperature, step_result, has_pending_stop, validate_tokens_raw, force_tokens} cut verbatim from constraint.rs onto a local copy of the Constraint struct with a stub TokenParser; real StepResult / CommitResult. Decided: compute_mask gives a stop result exactly when the engine reports the stop (or NoExtensionBias), else the engine's mask, else an error; after a stop result another compute_mask is an error and commit_token repeats the stop, neither reaches the engine; commit_token needs the sampled token, commits it once, appends fast-forward tokens only when the caller can take them, reports exactly what was committed, and a stop detected then is the next step's result",
+    "outside the claim: that the text so far IS complete when the parser says accepting (Earley run time); panic capture (catch_unwind cannot be modelled: Kani treats a panic as a failure); the stop controller's regex search (derivre automaton behind a mutex)",
 ]
 
 
 def run():
     tm = Timer()
     out = E1Outcome()
-    specs = pp.specs("tpproto", "c18", "proto_fail") + pp.specs("stop", "c20")
-    info = run_parser_groups("C18", "c18", ["tpproto", "stop"], specs, out, jobs=6, harness_timeout_s=1200, mem_gb=40)
+    specs = pp.specs("tpproto", "c18", "proto_fail") + pp.specs("stop", "c20") + pp.specs("mproto", "c18", "c18_fail") + pp.specs("cproto", "c18", "c18_fail")
+    info = run_parser_groups("C18", "c18", ["tpproto", "stop", "mproto", "cproto"], specs, out, jobs=8, harness_timeout_s=1200, mem_gb=40)
     cov = e1_coverage(out, [dict(harness=s["name"]) for s in specs[:8]],
                       ["tokenparser.rs TokenParser::{" + ", ".join(pp.TP_FNS) + "} (whole-function slices)", "stop_controller.rs valid_utf8_len"],
                       dict(prior_tokens=1, token_len="0..2", vocab=4, utf8_buffer="<=6 bytes"), dict(tier=tier(), stubs=["earley::Parser (byte stack)", "TokTrie (4-token table)", "ensure!/format!/infoln!/warn!/anyhow (no message text)"], **info))
